@@ -129,6 +129,11 @@ var curated = []string{
 	"T | project a, a, b = a, a = b",
 	"T | extend x = 1, y = 2 | extend x = y, y = x",
 	"T | where x in (1, 2, 3) and y in ('a', 'b') or n in (x, y)",
+	// long pipelines: dozens of sub-queries
+	"T" + strings.Repeat(" | where a > 1", 20),
+	"T" + strings.Repeat(" | where a > 1 | project a, b | extend c = a + b", 9),
+	"T" + strings.Repeat(" | summarize n = count() by k | where n > x", 12) + " | join (U" + strings.Repeat(" | where b < 2", 18) + ") on k",
+	"let x = 1; T" + strings.Repeat(" | extend y = x | where y == x", 33),
 }
 
 // GenPool generates the workload pool for a base seed: every source under several parameter maps.
